@@ -19,7 +19,9 @@
      of GetProviders and datastore errors are not modelled;
    - concurrency: every operation is atomic (AddProvider/GetProviders hold mu for
      their whole datastore access; collectExpired is one step).  The documented
-     race of the sweep with a concurrent re-add is therefore outside this model. *)
+     race of the sweep with a concurrent re-add is therefore outside this model.
+     The lock discipline itself (what Close guarantees about calls in flight) is
+     modelled in ProvidersClose.v. *)
 From Verif.Lib Require Import GoSem Bits.
 
 Definition key := N.
